@@ -4,7 +4,6 @@ import (
 	"fmt"
 	"go/types"
 	"sort"
-	"strings"
 
 	"golang.org/x/tools/go/ssa"
 
@@ -383,6 +382,7 @@ func init() {
 			"(E1b.active-destination) active destinations never leave their shard's critical section — readers get snapshots; (E6.who-may-write) only the withdraw/insert primitives and Adj-RIB maintenance write a path list; (E6.update-critical-section) one RIB change is one uninterrupted exclusive shard section. Also: (E6.stale-session-guard) messages stamped before the current session's Uptime are dropped before handleUpdate; (E3.adj-clone-rejected) clones kept in the Adj-RIB-In keep the rejected mark. (E4.case-ratchet) against a committed baseline, no switch of the code this property is anchored in has lost a named case. (E6.call-ratchet) against a committed baseline, no function of that code has stopped calling (directly or through helpers) a non-trivial callee it called on the reviewed tree.",
 		Not: "Implicit/explicit withdraw matching, counters, lookups, best-path event replay and 'exactly the latest un-withdrawn route' over all histories are value-level and not decided.",
 		Run: func(c *Ctx) {
+			c.ruleRatchets("C02")
 			c.ruleGuarded("E1b.guarded", c02Guard, 40)
 			var req []reqRow
 			for _, q := range requiresTable {
@@ -398,8 +398,6 @@ func init() {
 			c.ruleMacIndexHandles()
 			c.ruleAdjRibStoresIncoming()
 			c.ruleStaleSessionGuard("E6.stale-session-guard")
-			c.ruleCaseRatchet("E4.case-ratchet", []string{"internal/pkg/table"}, func(f string) bool { return !strings.HasSuffix(f, "policy.go") }, "baselines/switches.json", 25)
-			c.ruleCallRatchet("E6.call-ratchet", []string{"internal/pkg/table"}, func(f string) bool { return !strings.HasSuffix(f, "policy.go") && !strings.HasSuffix(f, "roa.go") }, "baselines/calls.json", 100)
 			c.ruleAdjCloneKeepsRejection()
 		},
 	})
@@ -408,6 +406,7 @@ func init() {
 		Expl: "Decides: (E1b.requires) the ROA table mutators (Add, Delete, DeleteAll) are only called with sharedData.mu held exclusively (the management context), so validation never observes a half-applied RTR update; (E4.decode-produces) every RTR PDU type with a serialiser is built by ParseRTR; (E4.rtr-handled) the handler's type switch covers every PDU type the parser can return; (E2c) the RTR parser never writes its input; (E6.rtr-session-change) the session id is overwritten only after it was compared with the old one and the old session's records purged on change. Also: (E4.confed-pair) the origin-AS switch of Validate names both confederation segment types; (E6.roa-delete-guarded) Delete changes the table only on the true edge of ROA.Equal. (E4.case-ratchet) against a committed baseline, no switch of the code this property is anchored in has lost a named case. (E6.call-ratchet) against a committed baseline, no function of that code has stopped calling (directly or through helpers) a non-trivial callee it called on the reviewed tree.",
 		Not:  "RFC 6811 classification (valid / invalid / not-found), covering-prefix walks and ROA-set equality after PDU sequences are value-level and not decided.",
 		Run: func(c *Ctx) {
+			c.ruleRatchets("C16")
 			var req []reqRow
 			for _, q := range requiresTable {
 				if q.Lock == lkShared {
@@ -428,8 +427,6 @@ func init() {
 			c.ruleSessionChangeDetected()
 			c.ruleConfedPair("E4.confed-pair")
 			c.ruleROADeleteGuarded("E6.roa-delete-guarded")
-			c.ruleCaseRatchet("E4.case-ratchet", []string{"internal/pkg/table", "pkg/server"}, func(f string) bool { return strings.HasSuffix(f, "roa.go") || strings.HasSuffix(f, "rpki.go") }, "baselines/switches.json", 2)
-			c.ruleCallRatchet("E6.call-ratchet", []string{"internal/pkg/table", "pkg/server"}, func(f string) bool { return strings.HasSuffix(f, "roa.go") || strings.HasSuffix(f, "rpki.go") }, "baselines/calls.json", 10)
 		},
 	})
 }
